@@ -15,10 +15,16 @@ import (
 	"golang.org/x/tools/go/ssa"
 )
 
-func (c *FuncCtx) pureApp(fn *ssa.Function, args []Val, rt types.Type) Val {
+func (c *FuncCtx) pureApp(fn *ssa.Function, args []Val, rt types.Type, st *State) Val {
 	name := "pf_" + quoteSymInner(fnDisplayName(fn))
 	var sorts, terms []string
 	for _, a := range args {
+		if isByteSlice(a.T) && st != nil {
+			// a byte slice argument stands for its contents
+			sorts = append(sorts, "Str")
+			terms = append(terms, c.bytesToStr(st.get(c.so.heapArr(types.Typ[types.Byte])), a.S))
+			continue
+		}
 		sorts = append(sorts, c.so.sortOf(a.T))
 		terms = append(terms, c.termOf(a))
 	}
